@@ -20,6 +20,7 @@ func init() {
 		"vpU64":          func(e *Engine, st *State, fn *ssa.Function, a []Value, s ssa.Instruction) []Outcome { return vpScalar(e, st, "u64", 64) },
 		"vpBool":         vpBool,
 		"vpInt":          vpInt,
+		"vpIntC":         vpIntC,
 		"vpBytes":        vpBytes,
 		"vpBytesCap":     vpBytesCap,
 		"vpBytesCapN":    vpBytesCapN,
@@ -381,4 +382,32 @@ func vpDump(e *Engine, st *State, fn *ssa.Function, a []Value, s ssa.Instruction
 		fmt.Printf("DUMP %s %s\n", tag, termStr(v, 8))
 	}
 	return one(st, nil)
+}
+
+// vpIntC(lo, hi): like vpInt, but the value is concretised at once (one path per value).
+func vpIntC(e *Engine, st *State, fn *ssa.Function, a []Value, s ssa.Instruction) []Outcome {
+	lo, ok1 := a[0].(*Term).SConstVal()
+	hi, ok2 := a[1].(*Term).SConstVal()
+	if !ok1 || !ok2 {
+		panic(unsupported("vpIntC bounds must be concrete"))
+	}
+	if hi < lo {
+		return nil
+	}
+	t := e.tm.FreshVar("in_i", 64)
+	st.tape = st.tape.push(TapeEntry{Kind: "int", Term: t})
+	var outs []Outcome
+	for v := lo; v <= hi; v++ {
+		s2 := st
+		if v < hi {
+			s2 = st.clone()
+		}
+		c := e.c64(uint64(v))
+		s2.assume(e.tm.Eq(t, c))
+		if hi > lo {
+			s2.splits++
+		}
+		outs = append(outs, Outcome{st: s2, ret: c})
+	}
+	return outs
 }
